@@ -360,6 +360,12 @@ def route_removal(state: VRPState, rng: Random, n_routes: int = 1) -> VRPState:
         state.routes[v] = []
         state.arrival_times[v] = []
 
+    # A multi-vehicle customer of a removed route leaves its other routes too ("unassigned" means "on no route")
+    for v in range(len(state.routes)):
+        if any(c in state.unassigned for c in state.routes[v]):
+            state.routes[v] = [c for c in state.routes[v] if c not in state.unassigned]
+            state.arrival_times[v] = state.compute_arrival_times(v)
+
     return state
 
 
